@@ -101,7 +101,7 @@ DeliverCode(e) ==
 
 \* shape of the known deviation: every row of the batch that re-delivers fewer rows than before lost only LATE rows
 OvertakeShape(e) ==
-  /\ cfg.kind = "tumbling" /\ cfg.al > 0
+  /\ cfg.kind \in {"tumbling", "sliding"} /\ cfg.al > 0       \* sliding: since repair b8703e6 it registers the fired window before the delivery, as the tumbling window does
   /\ \A k \in 1..Len(e.rows) :
        LET r == e.rows[k]  prev == PrevOf(r.ws, r.g) IN
        prev # {} =>
